@@ -239,7 +239,20 @@ def _drive_with_injections(rr, sim, case):
         if not ctl.is_paused or ctl.get_state().events_processed != inj["after"]:
             break
         now = sim._clock.now.nanoseconds
+        look = inj.get("look")
+        if look is None:
+            look = (inj["after"] + len(inj["events"])) % 3
+        if look == 1:
+            # round 8: the user inspects the calendar while paused; looking must not change what is delivered
+            # (C01-r8-2: peek_next() put the events back with a raw heappush after pop() had already taken them off
+            # the pending-primary count, so a run without end_time stopped with live events still pending)
+            ctl.peek_next(1 + inj["after"] % 5)
+            ctl.get_state()
+        elif look == 2:
+            ctl.find_events(lambda e: True)
         sim.schedule([rr._mk(s, now + s["dt"]) for s in inj["events"]])
+        if look == 1:
+            ctl.peek_next(2)
     while ctl.is_paused:
         ctl.resume()
 
